@@ -24,14 +24,21 @@ const (
 	FKIndex
 	FKNilDeref
 	FKDivZero
+	FKErrorEmpty // t.Error() with no arguments: a non-fatal failure with an empty message
+	FKErrorfEmpty
 	numFailKinds
 )
 
-var fkNames = [...]string{"Fatal", "Fatalf", "FailNow", "Error", "Errorf", "Fail", "panic(string)", "panic(error)", "panic(struct)", "panic(nil)", "nil-map-write", "index-out-of-range", "nil-deref", "div-by-zero"}
+var fkNames = [...]string{"Fatal", "Fatalf", "FailNow", "Error", "Errorf", "Fail", "panic(string)", "panic(error)", "panic(struct)", "panic(nil)", "nil-map-write", "index-out-of-range", "nil-deref", "div-by-zero", "Error()", "Errorf(\"\")"}
 
 func (k FailKind) String() string { return fkNames[k] }
-func (k FailKind) Fatal() bool    { return !(k == FKError || k == FKErrorf || k == FKFail) }
-func (k FailKind) IsPanic() bool  { return k >= FKPanicStr }
+func (k FailKind) Fatal() bool {
+	return !(k == FKError || k == FKErrorf || k == FKFail || k == FKErrorEmpty || k == FKErrorfEmpty)
+}
+func (k FailKind) IsPanic() bool { return k >= FKPanicStr && k <= FKDivZero }
+
+// TMethod: signalled through a method of *T (sticky by design), as opposed to a panic.
+func (k FailKind) TMethod() bool { return !k.IsPanic() }
 
 // HasUserMsg: the failure carries a message chosen by the program.
 func (k FailKind) HasUserMsg() bool {
